@@ -188,6 +188,53 @@ Proof.
 Qed.
 Print Assumptions C05_patterns.
 
+(* ---- pattern types: a single restriction of xs:token with a pattern; the class cleans the string as a token, then matches ---- *)
+Definition pat1_row (row:string * string * option rcls * option xr) : bool :=
+  match row with
+  | (_, _, Some r, Some (XRestr XToken false [] (Some q) None None None None)) => match is_pat_tok_r r with Some p => cre_eqb q p | None => false end
+  | _ => false end.
+Definition pat1_rows := Eval vm_compute in filter pat1_row rows.
+Lemma pat1_rows_ok : forallb pat1_row pat1_rows = true.
+Proof. vm_compute. reflexivity. Qed.
+(* for EVERY string in normalised form (for the schema: collapse; for the library: its token cleaner; the two differ on Unicode
+   white space, RC29): the class accepts it iff it is in the lexical space of the schema type *)
+Theorem C05_pattern_types : forall t c r x, In (t, c, Some r, Some x) pat1_rows -> forall s, collapse s = s -> cleaned_token s = s ->
+  (fst (run r (VStr s)) = Ok <-> xrun x (render (VStr s)) = true).
+Proof.
+  intros t c r x I s N CT. pose proof (proj1 (forallb_forall _ _) pat1_rows_ok _ I) as H. unfold pat1_row in H. cbv beta iota in H.
+  destruct x as [| | | | | | |base pres en pat ml mi ma me|]; try discriminate. destruct base; try discriminate. destruct pres; try discriminate.
+  destruct en; try discriminate. destruct pat as [q|]; try discriminate. destruct ml; try discriminate. destruct mi; try discriminate.
+  destruct ma; try discriminate. destruct me; try discriminate.
+  destruct (is_pat_tok_r r) as [p|] eqn:E; [|discriminate]. rewrite (pat_tok_r_spec r p E s CT). simpl. rewrite N.
+  rewrite (cre_eqb_sound q p H s). destruct (cmatch p s); split; auto; discriminate.
+Qed.
+Print Assumptions C05_pattern_types.
+Example C05_pattern_types_nonvacuous : Nat.leb 6 (List.length pat1_rows) = true /\ collapse (cp "1, 2") = cp "1, 2" /\ cleaned_token (cp "1, 2") = cp "1, 2"
+  /\ lib_check lib_st "XSDSimpleTypeTimeOnly" (VStr (cp "1, 2")) = Ok.
+Proof. vm_compute. auto. Qed.
+(* RC29 as the reason for the second premise: NBSP is removed by the library's cleaner, not by the schema's collapse *)
+Example C05_refuted_foreign_space : let s := (160%N :: cp "1")%list in collapse s = s /\ cleaned_token s <> s /\
+  lib_check lib_st "XSDSimpleTypeTimeOnly" (VStr s) = Ok /\ xsd_valid xsd_st 8 "time-only" s = false.
+Proof. vm_compute. repeat split; auto. discriminate. Qed.
+(* ---- free strings: token / string types without any facet accept every str, and every str is valid text ---- *)
+Definition free_row (row:string * string * option rcls * option xr) : bool :=
+  match row with
+  | (_, _, Some r, Some (XRestr (XToken | XString) _ [] None None None None None)) => is_free_r r
+  | _ => false end.
+Definition free_rows := Eval vm_compute in filter free_row rows.
+Lemma free_rows_ok : forallb free_row free_rows = true.
+Proof. vm_compute. reflexivity. Qed.
+Theorem C05_free_strings : forall t c r x, In (t, c, Some r, Some x) free_rows -> forall s, fst (run r (VStr s)) = Ok /\ xrun x (render (VStr s)) = true.
+Proof.
+  intros t c r x I s. pose proof (proj1 (forallb_forall _ _) free_rows_ok _ I) as H. unfold free_row in H. cbv beta iota in H.
+  destruct x as [| | | | | | |base pres en pat ml mi ma me|]; try discriminate.
+  destruct base; try discriminate; destruct en; try discriminate; destruct pat; try discriminate; destruct ml; try discriminate; destruct mi; try discriminate;
+    destruct ma; try discriminate; destruct me; try discriminate; (split; [apply free_r_spec; auto|reflexivity]).
+Qed.
+Print Assumptions C05_free_strings.
+Example C05_free_strings_nonvacuous : Nat.leb 4 (List.length free_rows) = true.
+Proof. vm_compute. reflexivity. Qed.
+
 (* ---- recorded deviations, as computed facts ---- *)
 (* RC16: bool is an int: accepted by the integer / decimal based types, emitted as "True" *)
 Example C05_refuted_bool : lib_check lib_st "XSDSimpleTypeMidi16" (VBool true) = Ok /\ xsd_valid xsd_st 8 "midi-16" (render (VBool true)) = false.
